@@ -7,6 +7,7 @@ import Driver.C11
 import Driver.C16
 import Driver.C18
 import Driver.C08
+import Driver.C09
 
 /-- global driver state: one slot per stateful model -/
 structure St where
@@ -21,6 +22,7 @@ def stepLine (st : St) (line : String) : St × String :=
   | "C04" :: rest => (st, Driver.C04.step rest)
   | "C19" :: rest => let (s', o) := Driver.C19.step st.c19 rest; ({ st with c19 := s' }, o)
   | "C02" :: rest => let (s', o) := Driver.C02.step st.c02 rest; ({ st with c02 := s' }, o)
+  | "C09" :: rest => (st, Driver.C09.step rest)
   | "C08" :: rest => (st, Driver.C08.step rest)
   | "C18" :: rest => let (s', o) := Driver.C18.step st.c18 rest; ({ st with c18 := s' }, o)
   | "C16" :: rest => let (s', o) := Driver.C16.step st.c16 rest; ({ st with c16 := s' }, o)
